@@ -36,6 +36,9 @@ func (o ReadOpts) Options() []carv2.Option {
 	if o.WholeCIDs {
 		out = append(out, carv2.UseWholeCIDs(true))
 	}
+	if o.Trusted {
+		out = append(out, carv2.WithTrustedCAR(true))
+	}
 	return out
 }
 
@@ -238,7 +241,8 @@ func GenC14(seed uint64, run int) *Trace {
 		// a block with a 3-byte length varint
 		spec.Blocks = append(spec.Blocks, BlkSpec{Kind: "raw", Seed: 9, Size: 16400})
 	}
-	return &Trace{Prop: "C14", Engine: "medium", Seed: seed, Run: run, Medium: &MediumSpec{Image: spec, All: true, Del: sim.Delivery{ErrAt: -1}}}
+	opts := ReadOpts{Trusted: r.Chance(1, 3)}
+	return &Trace{Prop: "C14", Engine: "medium", Seed: seed, Run: run, Medium: &MediumSpec{Image: spec, All: true, Opts: opts, Del: sim.Delivery{ErrAt: -1}}}
 }
 
 func shrinkMedium(t *Trace, try func(*Trace) bool) *Trace {
